@@ -147,6 +147,14 @@ def run_gen(scn):
                 if params[key] == 1 and st["prio"].get(pr, 0) != n:
                     raise Violation("C15.probability_one", {"priority": pr, "observed": st["prio"]})
             probes["freq_checked"] = 1
+        # a class with a small but positive probability does turn up (exact tail, not Hoeffding)
+        for pr, key in (("INTERACTIVE", "interactive_prob"), ("QUERY", "query_prob"), ("BATCH_PIPELINE", "batch_prob")):
+            pk = params[key]
+            if 0 < pk < 1 and st["prio"].get(pr, 0) == 0 and n > 0 and n * math.log1p(-pk) < math.log(1e-12):
+                raise Violation("C15.class_never_generated", {"priority": pr, "configured": pk, "pipelines": n,
+                                                              "chance_of_that": math.exp(n * math.log1p(-pk))})
+            if 0 < pk < 1 and st["prio"].get(pr, 0) == n and n > 0 and n * math.log(pk) < math.log(1e-12):
+                raise Violation("C15.class_always_generated", {"priority": pr, "configured": pk, "pipelines": n})
         # about num_operators on average (truncation towards zero costs about a half)
         m = st["nq_pipelines"]
         if m >= 400:
@@ -193,6 +201,11 @@ def gen_scn(r, tier):
     from .sysgen import PROB_TRIPLES
     tps = r.choice([1, 2, 5, 10, 16, 100, 1000, 10 ** 4, 10 ** 5])
     i, q, b = r.choice(PROB_TRIPLES)
+    fine = r.random() < 0.12
+    if fine:
+        # triples that are not whole percents: a class of a few per mille, thirds
+        i, q, b = r.choice([(0.996, 0.004, 0.0), (0.0, 0.0045, 0.9955), (0.004, 0.0, 0.996), (0.333, 0.333, 0.334), (0.1234, 0.4321, 0.4445),
+                            (0.0035, 0.0035, 0.993)])
     kind = r.choice(["dense", "dense", "sparse", "subtick", "long"])
     if kind == "dense":
         wt = r.choice([1, 2, 3, 7, 20, 50])
@@ -209,6 +222,8 @@ def gen_scn(r, tier):
     # int(waiting_seconds_mean * tps) must reproduce wt: keep products exact
     params["waiting_seconds_mean"] = float(params["waiting_seconds_mean"])
     maxp = r.choice([600, 1500, 3000]) if tier == "quick" else r.choice([1500, 4000, 8000])
+    if fine:
+        maxp = 9000         # (1 - 0.0035) ** 9000 < 1e-12: absence is then no accident
     return {"kind": "gen", "params": params, "nticks": 10 ** 9, "max_pipelines": maxp,
             "paired": r.random() < 0.3 and b + i > 0.3,
             "zero_prob_class": 0 in (i, q, b), "prob_one": 1 in (i, q, b),
